@@ -17,6 +17,12 @@ RULE = (
     "RTCMMessageError and leave (payload, identity, attribute dict, str, repr, serialize()) unchanged. "
     "distinct = blake2b(payload, attempted names); non-trivial = the sequence contains an existing and a fresh name"
 )
+RULE += (
+    ' Also: messages obtained from the constructor, the static parser, file and socket readers; real'
+    ' in-place augmented assignment on payload; failing constructions and serialisations in between;'
+    ' payloads > 65535 bytes; string form taken before and after serialize(); fresh names with format'
+    ' directives, braces, quotes, newline, the empty string; a threaded scenario.'
+)
 ASSUMPTIONS = ["assignment means setattr / augmented assignment through the object's own __setattr__ "
                "(object.__setattr__ and __dict__ poking bypass any Python class and are out of scope)"]
 GATES = ["attempts", "existing_public", "existing_private", "property_names", "fresh_names", "augmented",
